@@ -66,7 +66,7 @@ fn("modulus_i_ii", "pII(input1, input2)", [
 fn("dotplus_i_ii", "pII(input1, input2)", [f"isI(result, {A} + {B})"])
 fn("dotminus_i_ii", "pII(input1, input2)", [f"isI(result, {A} - {B})"])
 fn("dottimes_i_ii", "pII(input1, input2)", [f"isI(result, {A} * {B})"])
-fn("dotdivide_i_ii", "pII(input1, input2)", [f"imp({B} != 0, isI(result, {A} / {B}))", "result != nil"])
+fn("dotdivide_i_ii", "pII(input1, input2)", [f"imp({B} != 0, isI(result, {A} / {B}))", f"imp({B} == 0, result != nil && mlrval.VKind(result) == mlrval.MT_ERROR)"])
 # bits
 fn("bitwise_not_i_i", "mlrval.IsIntVal(input1)", [f"isI(result, ^{A})"])
 fn("bitcount_i_i", "mlrval.IsIntVal(input1)", [f"isI(result, popcount({A}))"])
@@ -84,10 +84,10 @@ def pure(name, params, ens, req=None):
     w("//@ modifies nothing")
     for e in ens: w(f"//@ ensures {e}")
     w()
-pure("mlrmod", "a, m", ["imp(m > 0, 0 <= result && result < m)", "imp(m > 0, result == a - m*floorDiv(a, m))"])
-pure("imodadd", "a, b, m", ["imp(m > 0, 0 <= result && result < m)", "imp(m > 0 && addFits(a, b), result == (a+b) - m*floorDiv(a+b, m))"])
-pure("imodsub", "a, b, m", ["imp(m > 0, 0 <= result && result < m)", "imp(m > 0 && subFits(a, b), result == (a-b) - m*floorDiv(a-b, m))"])
-pure("imodmul", "a, b, m", ["imp(m > 0, 0 <= result && result < m)", "imp(m > 0 && mulFits(a, b), result == (a*b) - m*floorDiv(a*b, m))"])
+pure("mlrmod", "a, m", req="m != 0", ens=["imp(m > 0, 0 <= result && result < m)", "imp(m > 0, result == a - m*floorDiv(a, m))"])
+pure("imodadd", "a, b, m", req="m != 0", ens=["imp(m > 0, 0 <= result && result < m)", "imp(m > 0 && addFits(a, b), result == (a+b) - m*floorDiv(a+b, m))"])
+pure("imodsub", "a, b, m", req="m != 0", ens=["imp(m > 0, 0 <= result && result < m)", "imp(m > 0 && subFits(a, b), result == (a-b) - m*floorDiv(a-b, m))"])
+pure("imodmul", "a, b, m", req="m != 0", ens=["imp(m > 0, 0 <= result && result < m)", "imp(m > 0 && mulFits(a, b), result == (a*b) - m*floorDiv(a*b, m))"])
 # min / max
 fn("min_i_ii", "pII(input1, input2)", ["result == input1 || result == input2", f"isI(result, ite({A} < {B}, {A}, {B}))"])
 fn("max_i_ii", "pII(input1, input2)", ["result == input1 || result == input2", f"isI(result, ite({A} > {B}, {A}, {B}))"])
@@ -101,11 +101,18 @@ fn("uneg_f_f", "mlrval.IsFloatVal(input1)", [f"isF(result, -{FA})"])
 # pow / roundm: int-ness rule (math.Pow itself is uninterpreted)
 fn("pow_f_ii", "pII(input1, input2)", [
     "mlrval.IsIntVal(result) || mlrval.IsFloatVal(result)",
-    f"imp(mlrval.IsIntVal(result), sameFloat(float64(mlrval.VInt(result)), math.Pow(float64({A}), float64({B}))))",
+    f"imp(mlrval.IsIntVal(result), float64(mlrval.VInt(result)) == math.Pow(float64({A}), float64({B})))",
     f"imp(mlrval.IsFloatVal(result), sameFloat(mlrval.VFloat(result), math.Pow(float64({A}), float64({B}))))",
 ])
 fn("roundm_f_ii", "pII(input1, input2)", ["mlrval.IsIntVal(result)"])
 fn("roundm_f_ff", "pFF(input1, input2)", [f"isF(result, fround({FA}/{FB})*{FB})"])
 fn("roundm_f_if", "pIF(input1, input2)", [f"isF(result, fround(float64({A})/{FB})*{FB})"])
 fn("roundm_f_fi", "pFI(input1, input2)", [f"isF(result, fround({FA}/float64({B}))*float64({B}))"])
+# public modular-arithmetic functions: any three well-formed values => a value, no panic
+for f in ("BIF_mod_add", "BIF_mod_sub", "BIF_mod_mul"):
+    w(f"//@ func {f}"); w("//@ encoding bv")
+    w("//@ requires mlrval.WF(input1) && mlrval.WF(input2) && mlrval.WF(input3)")
+    w("//@ ensures result != nil")
+    w("//@ ensures imp(old(iv(input3)) == 0 && mlrval.IsIntVal(input1) && mlrval.IsIntVal(input2) && mlrval.IsIntVal(input3), mlrval.VKind(result) == mlrval.MT_ERROR)")
+    w()
 print("\n".join(out))
